@@ -48,6 +48,18 @@ impl Stream for CountStream {
     }
 }
 
+// multipart forms whose file field streams to disk under a per-field limit (the limit is an attribute, hence one type per limit)
+#[derive(actix_multipart::form::MultipartForm)]
+struct Temp16 {
+    #[multipart(limit = "16B")]
+    f: actix_multipart::form::tempfile::TempFile,
+}
+#[derive(actix_multipart::form::MultipartForm)]
+struct Temp4096 {
+    #[multipart(limit = "4096B")]
+    f: actix_multipart::form::tempfile::TempFile,
+}
+
 #[derive(serde::Deserialize)]
 struct FormT {
     a: String,
@@ -124,13 +136,16 @@ pub fn replay(cases: &[Value], out: &mut TraceOut) {
                 if ex == "mpfield" {
                     chunks.push_back(Bytes::from_static(b"--PQ\r\ncontent-disposition: form-data; name=\"f\"\r\n\r\n"));
                 }
+                if ex == "mptemp" {
+                    chunks.push_back(Bytes::from_static(b"--PQ\r\ncontent-disposition: form-data; name=\"f\"; filename=\"x.bin\"\r\n\r\n"));
+                }
                 let mut p = 0;
                 for s in &sizes {
                     chunks.push_back(Bytes::copy_from_slice(&wire[p..p + s]));
                     p += s;
                     maxwire = maxwire.max(*s);
                 }
-                if ex == "mpfield" {
+                if ex == "mpfield" || ex == "mptemp" {
                     chunks.push_back(Bytes::from_static(b"\r\n--PQ--\r\n"));
                 }
             } else {
@@ -151,6 +166,28 @@ pub fn replay(cases: &[Value], out: &mut TraceOut) {
                     .route("/string", web::post().to(|b: String| async move { HttpResponse::Ok().body(b.len().to_string()) }))
                     .route("/json", web::post().to(|b: web::Json<Value>| async move { HttpResponse::Ok().body(b.to_string().len().to_string()) }))
                     .route("/form", web::post().to(|b: web::Form<FormT>| async move { HttpResponse::Ok().body((b.a.len() + 2).to_string()) }))
+                    .route(
+                        "/mptemp/16",
+                        web::post().to(|f: Result<actix_multipart::form::MultipartForm<Temp16>, actix_web::Error>| async move {
+                            // the form extractor answers every error with 400: tell the overflow error apart by what it is
+                            match f {
+                                Ok(f) => HttpResponse::Ok().body(f.f.size.to_string()),
+                                Err(e) if format!("{e:?}").contains("Overflow") => HttpResponse::PayloadTooLarge().finish(),
+                                Err(_) => HttpResponse::BadRequest().finish(),
+                            }
+                        }),
+                    )
+                    .route(
+                        "/mptemp/4096",
+                        web::post().to(|f: Result<actix_multipart::form::MultipartForm<Temp4096>, actix_web::Error>| async move {
+                            // the form extractor answers every error with 400: tell the overflow error apart by what it is
+                            match f {
+                                Ok(f) => HttpResponse::Ok().body(f.f.size.to_string()),
+                                Err(e) if format!("{e:?}").contains("Overflow") => HttpResponse::PayloadTooLarge().finish(),
+                                Err(_) => HttpResponse::BadRequest().finish(),
+                            }
+                        }),
+                    )
                     .route(
                         "/mpfield/{limit}",
                         web::post().to(|mut mp: actix_multipart::Multipart, l: web::Path<usize>| async move {
@@ -177,13 +214,13 @@ pub fn replay(cases: &[Value], out: &mut TraceOut) {
                     ),
             )
             .await;
-            let uri = if ex == "tbl" || ex == "mpfield" { format!("/{ex}/{limit}") } else { format!("/{ex}") };
+            let uri = if ex == "tbl" || ex == "mpfield" || ex == "mptemp" { format!("/{ex}/{limit}") } else { format!("/{ex}") };
             let mut rb = test::TestRequest::post().uri(&uri);
             if ex == "form" {
                 rb = rb.insert_header((header::CONTENT_TYPE, "application/x-www-form-urlencoded"));
             } else if ex == "json" {
                 rb = rb.insert_header((header::CONTENT_TYPE, "application/json"));
-            } else if ex == "mpfield" {
+            } else if ex == "mpfield" || ex == "mptemp" {
                 rb = rb.insert_header((header::CONTENT_TYPE, "multipart/form-data; boundary=PQ"));
             }
             if coding != "identity" {
@@ -206,7 +243,7 @@ pub fn replay(cases: &[Value], out: &mut TraceOut) {
             let c = counter.borrow();
             // decoded bytes pulled: for identity the wire bytes; for coded bodies unknown without a hook -> report the wire side scaled
             // (Field::bytes keeps reading after the limit is exceeded, to advance the multipart stream: no pull clause for it)
-            let pulled = if coding == "identity" && ex != "mpfield" { c.pulled_wire } else { 0 };
+            let pulled = if coding == "identity" && ex != "mpfield" && ex != "mptemp" { c.pulled_wire } else { 0 };
             out.emit(json!({"ev":"extract","ex":ex,"limit":limit,"total":total,"declared":declared,"coding":coding,"status":status,
                             "pulled":pulled,"pulled_wire":c.pulled_wire,"wire_total":wire.len(),"maxchunk":maxchunk,"maxwire":maxwire,
                             "held":held,"slack":65536 + 8 * limit.min(1 << 20) + match coding.as_str() { "identity" => 0, "gzip" | "deflate" => 1 << 20, _ => 24 << 20 }}));
